@@ -100,25 +100,24 @@ Inductive tally_out := TNotYet | TDraw | TMaj (cands : list N).
 
 Definition find_vote_result (quorum threshold : Z) (s : list N) : tally_out :=
   let th := Z.min threshold quorum in
-  match s with
-  | [] => TNotYet
-  | _ =>
-      let ks := dedupN s in
-      let set := map (fun k => countN k s) ks in
-      let mx := maxZ set in
-      (* FindMajority on the descending set: the first element reaching quorum or th is the maximum *)
-      if (quorum <=? mx) || (th <=? mx) then TMaj (filter (fun k => Z.eqb (countN k s) mx) ks)
-      else if (usub quorum (sumZ set) + mx) mod two64 <? th then TDraw
-      else TNotYet
-  end.
+  if nonempty s then
+    let ks := dedupN s in
+    let set := map (fun k => countN k s) ks in
+    let mx := maxZ set in
+    (* FindMajority on the descending set: the first element reaching quorum or th is the maximum *)
+    if (quorum <=? mx) || (th <=? mx) then TMaj (filter (fun k => Z.eqb (countN k s) mx) ks)
+    else
+      let sum := sumZ set in
+      let remain := if sum <? quorum then quorum - sum else 0 in    (* saturating, after the C01 fix *)
+      if remain + mx <? th then TDraw else TNotYet
+  else TNotYet.
 
-(* the cases where the Go outcome is not a function of the input (map order) or depends on the
-   over-vote wrap of quorum-sum (C01's subject): excluded from the comparison, and proved unreachable for
-   voteproofs that pass IsValidVoteproof (distinct signers inside the suffrage) *)
+(* the case where the Go outcome is not a function of the input (several keys with the winning count: map order);
+   excluded from the comparison, and proved unreachable for voteproofs that pass IsValidVoteproof *)
 Definition tally_unstable (quorum threshold : Z) (s : list N) : bool :=
   match find_vote_result quorum threshold s with
   | TMaj c => 1 <? len c
-  | _ => quorum <? len s
+  | _ => false
   end.
 
 (* ------------------------------------------------------------------ isaac/suffrage.go *)
@@ -201,8 +200,8 @@ Definition expel_majority_match (v : vp) : bool :=
   | None => true
   end.
 
-(* baseStuckVoteproof.isValid: nothing about the majority (a stuck voteproof built by the ballotbox always has none) *)
-Definition stuck_majority_ok (v : vp) : bool := true.
+(* baseStuckVoteproof.isValid: a stuck voteproof is never tallied, it has to be a draw (no majority) *)
+Definition stuck_majority_ok (v : vp) : bool := match v_maj v with None => true | Some _ => false end.
 
 (* Voteproof.IsValid(networkID) of the six concrete types *)
 Definition wf (v : vp) : bool :=
@@ -262,7 +261,7 @@ Definition unstable (suf : suffrage) (v : vp) : bool :=
   match reduced suf v with
   | None => false
   | Some (rsuf, th10) =>
-      if is_stuck v then false
+      if is_stuck v || negb (sfs_in_suf rsuf v) then false
       else tally_unstable (len rsuf) (thr (len rsuf) th10) (map (fun s => f_id (s_fact s)) (v_sfs v))
   end.
 
@@ -271,16 +270,20 @@ Definition accepted (suf : suffrage) (v : vp) : bool := wf v && valid_suf suf v.
 
 (* ------------------------------------------------------------------ the property's vocabulary *)
 
+(* sign fact s is a genuine signature of suffrage node x: names x, verifies, under the key the suffrage holds for x *)
+Definition genuine (suf : suffrage) (s : sfact) (x : N) : bool :=
+  N.eqb (s_node s) x && s_sig s && suf_exists_key suf x (s_key s).
+
 (* node x signs fact id [fid] in voteproof v *)
-Definition signs_fact (v : vp) (fid : N) (x : N) : bool :=
-  existsb (fun s => N.eqb (s_node s) x && N.eqb (f_id (s_fact s)) fid) (v_sfs v).
+Definition signs_fact (suf : suffrage) (v : vp) (fid : N) (x : N) : bool :=
+  existsb (fun s => genuine suf s x && N.eqb (f_id (s_fact s)) fid) (v_sfs v).
 
 (* node x signs two different facts: one in v1, another in v2 *)
-Definition equivocates (v1 v2 : vp) (x : N) : bool :=
-  existsb (fun s1 => N.eqb (s_node s1) x &&
-     existsb (fun s2 => N.eqb (s_node s2) x && negb (N.eqb (f_id (s_fact s1)) (f_id (s_fact s2)))) (v_sfs v2)) (v_sfs v1).
+Definition equivocates (suf : suffrage) (v1 v2 : vp) (x : N) : bool :=
+  existsb (fun s1 => genuine suf s1 x &&
+     existsb (fun s2 => genuine suf s2 x && negb (N.eqb (f_id (s_fact s1)) (f_id (s_fact s2)))) (v_sfs v2)) (v_sfs v1).
 
-Definition n_equivocators (suf : suffrage) (v1 v2 : vp) : Z := len (filter (equivocates v1 v2) (map fst suf)).
+Definition n_equivocators (suf : suffrage) (v1 v2 : vp) : Z := len (filter (equivocates suf v1 v2) (map fst suf)).
 
 (* floor(n - n*t/100) for t = k/10, in exact arithmetic *)
 Definition f_exact (n k : Z) : Z := (1000 * n - n * k) / 1000.
